@@ -76,6 +76,8 @@ class Check:
             sigs = [e.op if e else "done" for e in oc]
             if "pncdrv[" in res.stderr or any(e.kind == "X" for evs in res.logs for e in evs):
                 raise runner.HarnessError("script error in case %s: %s" % (res.case.name, res.stderr[-800:]))
+            if not res.logs_nonempty() and "or execute an executable" in (res.stderr_full or ""):
+                raise runner.HarnessError("driver binary could not be launched (case %s): is another build replacing it?" % res.case.name)
             v.append(Violation("abort|" + "+".join(sorted(set(s for s in sigs if s != "done"))) + "|" + self.abort_site(res), "abnormal termination rc=%s open=%s stderr=%s" % (res.rc, sigs, res.stderr[-1500:]), res))
         # guard zones and write buffers (C13 side monitor)
         for rank, evs in enumerate(res.logs):
@@ -207,8 +209,8 @@ class Check:
             self.write_evidence(tier, seed, nrun, len(new), wall, note="inconclusive: observed nothing")
             return 2
         self.write_evidence(tier, seed, nrun, len(new), wall, known=sorted(set(k for (_, k) in seen_known)))
-        if not new:
-            shutil.rmtree(workdir, ignore_errors=True)
+        if not new or not os.environ.get("VERIF_KEEP"):
+            shutil.rmtree(workdir, ignore_errors=True)      # replay scripts are kept under replays/, the run directory is not
         print("%s %s: cases=%d distinct=%d api_calls=%d violations=%d known=%d inconclusive=%d wall=%.1fs" % (
             self.id, tier, nrun, len(self.features_seen), self.stats.get("api_calls", 0), len(new), len(seen_known), len(self.inconclusive), wall))
         return 1 if new else 0
